@@ -138,6 +138,9 @@ class CropMachine:
         if self.fspec is not None:
             for k in list(self.fspec.runner_constants) + list(self.fspec.resources):
                 c.pop(k, None)
+        # per-sow overrides of a runner constant / resource (C06): "repeated
+        # arguments take precedence over stored constants but for this run only"
+        c.update(getattr(self, "sow_overrides", {}))
         return c
 
     def load_crop(self):
